@@ -22,7 +22,7 @@ IShapeCases == {[mode |-> "ishape", l |-> l, b |-> b, nlong |-> n, k |-> k, othe
                   l \in {-33, 0}, b \in {0, 77}, n \in {1, 4, 7}, k \in {128, 96}, ot \in {50, 96, 300}, w \in BOOLEAN}
 \* regions that are not their own envelope, given in a CRS that bends straight lines relative to the requested one
 RegionCases == {[mode |-> "region", route |-> "polygon_real_crs", geo |-> g, pair |-> pr, resk |-> k, anchor |-> an, tight |-> tg, tol |-> tl, shift |-> 0] :
-                  g \in {"diamond", "triangle", "line", "box", "multipoint"}, pr \in {"4326>3035", "4326>32633", "3577>4326", "3035>4326", "32633>3857"},
+                  g \in {"diamond", "triangle", "line", "box", "multipoint", "bowtie"}, pr \in {"4326>3035", "4326>32633", "3577>4326", "3035>4326", "32633>3857"},
                   k \in {1, 3}, an \in {"edge", "center", "floating"}, tg \in BOOLEAN, tl \in {<<1, 100>>, <<1, 10>>}}
 VARIABLE c
 Init == c \in {[mode |-> "chunk", k |-> "res", v |-> r] : r \in Rs \cup {-x : x \in Rs}} \cup {[mode |-> "chunk", k |-> "shape", v |-> n] : n \in {1, 2, 5}}
